@@ -31,9 +31,9 @@ type taintEngine struct {
 	work     []ssa.Value
 	Sinks    []taintSink
 	Allowed  []taintSink
-	barrier  func(c ssa.CallInstruction, argIdx int) (allowed bool, what string) // call sites at which propagation stops and is accepted
+	barrier  func(c ssa.CallInstruction, argIdx int) (allowed bool, what string)          // call sites at which propagation stops and is accepted
 	external func(c ssa.CallInstruction, argIdx int) (verdict string, resultTainted bool) // "" = violation
-	okField  func(f *types.Var) bool // stores of tainted values into these fields are accepted (and tracked)
+	okField  func(f *types.Var) bool                                                      // stores of tainted values into these fields are accepted (and tracked)
 	retTaint map[*ssa.Function]bool
 	funcs    []*ssa.Function
 }
